@@ -193,7 +193,7 @@ def cases(tier, seed):
               "version_bounds", "overlap_refused", "rsa_in_non_last_v1_container", "max_layout", "cli_v2_single_table",
               "rsa_signature_provider", "encrypted_with_size_alignment"):
         yield {"kind": "witness", "what": w}
-    per = 60 if thorough else 4
+    per = 60 if thorough else 8
     for fam, rev, cv in info["combos"]:
         for mem in info["mems"]:
             for k in range(per):
